@@ -994,6 +994,55 @@ pub fn run_c13(rep: &mut Report, thorough: bool) {
             r.extend_from_slice(b"\n\n");
             (if d[2] == 0 { Path { tcp: false, v6: true, ports: 1 } } else { Path { tcp: true, v6: false, ports: 0 } }, r)
         });
+        // round 21: requests far longer than one segment.  A request-target / header value / header
+        // name / number of header lines of every length 2^k - 1, 2^k, 2^k + 1 (k = 10..16) and the
+        // multiples of 1000 up to 20 000, sent as a stream of 1400-byte segments on one connection:
+        // only the segment that completes the request is answered, with the 401
+        {
+            let mut lens: Vec<usize> = Vec::new();
+            for k in 10..=16u32 {
+                for d in [-1i64, 0, 1] {
+                    lens.push(((1i64 << k) + d) as usize);
+                }
+            }
+            for m in 2..=20 {
+                lens.push(m * 1000);
+            }
+            lens.sort();
+            lens.dedup();
+            let nl = lens.len() as u64;
+            sweep_conv(rep, &env, &format!("http-long-streams-{}", tag), "4 growing fields (request-target, header value, header name, number of header lines) x 40 lengths (2^k - 1, 2^k, 2^k + 1 for k = 10..16; multiples of 1000 up to 20000) x {v4,v6}, as 1400-byte segments of one connection", nl * 4 * 2, |i| {
+                let d = unrank(i, &[nl, 4, 2]);
+                let n = lens[d[0] as usize];
+                let mut r: Vec<u8> = Vec::new();
+                match d[1] {
+                    0 => {
+                        r.extend_from_slice(b"GET /");
+                        r.extend(std::iter::repeat(b't').take(n - 1));
+                        r.extend_from_slice(b" HTTP/1.1\r\nHost: x\r\n\r\n");
+                    }
+                    1 => {
+                        r.extend_from_slice(b"POST /f HTTP/1.0\r\nV: ");
+                        r.extend(std::iter::repeat(b'v').take(n));
+                        r.extend_from_slice(b"\r\n\r\n");
+                    }
+                    2 => {
+                        r.extend_from_slice(b"HEAD / HTTP/1.1\n");
+                        r.extend(std::iter::repeat(b'N').take(n));
+                        r.extend_from_slice(b": x\n\n");
+                    }
+                    _ => {
+                        r.extend_from_slice(b"GET /h HTTP/1.1\r\n");
+                        while r.len() < n {
+                            r.extend_from_slice(b"A: b\r\n");
+                        }
+                        r.extend_from_slice(b"\r\n");
+                    }
+                }
+                let segs: Vec<Vec<u8>> = r.chunks(1400).map(|c| c.to_vec()).collect();
+                (Path { tcp: true, v6: d[2] == 1, ports: d[2] as usize }, segs)
+            });
+        }
         // every byte value at every position of three short requests (which bytes end a method, a
         // target, a version, a header line is decided by the grammar, not by a character class)
         {
